@@ -425,17 +425,32 @@ func ruleE6(c *Ctx) {
 	})
 	callees := func(root *ssa.BasicBlock) string {
 		set := map[string]bool{}
+		seenF := map[*ssa.Function]bool{}
+		var visit func(in ssa.Instruction, depth int)
+		visit = func(in ssa.Instruction, depth int) {
+			if ci, ok := in.(ssa.CallInstruction); ok {
+				cal := ci.Common().StaticCallee()
+				// package-local helpers are expanded to what they call (so that splitting an
+				// arm into intFloatCmp/floatIntCmp helpers compares like with like)
+				if cal != nil && cal.Blocks != nil && fnPkgPath(cal) == modPath+"/starlark" && cal.Signature.Recv() == nil && cal.Name() != "threeway" && depth < 3 {
+					if !seenF[cal] {
+						seenF[cal] = true
+						eachInstr(cal, func(in2 ssa.Instruction) { visit(in2, depth+1) })
+					}
+					return
+				}
+				set[calleeName(ci)] = true
+			}
+			if cv, ok := in.(*ssa.Convert); ok {
+				set["convert->"+cv.Type().String()] = true
+			}
+		}
 		for _, b := range cd.Blocks {
 			if b != root && !root.Dominates(b) {
 				continue
 			}
 			for _, in := range b.Instrs {
-				if ci, ok := in.(ssa.CallInstruction); ok {
-					set[calleeName(ci)] = true
-				}
-				if cv, ok := in.(*ssa.Convert); ok {
-					set["convert->"+cv.Type().String()] = true
-				}
+				visit(in, 0)
 			}
 		}
 		var l []string
